@@ -40,7 +40,13 @@ def build(c):
     heights = c.get("heights", [H])
     g = calc_g_func_for_multiple_lengths(B, heights, c.get("rb_table", c.get("rb", 0.075)), 2.0, m_bh, bt, eskilson_log_times(), coords, fluid, pipe, grout, soil)
     loads = e2e.synthetic_loads(c["loads"])
-    ghe = GHE(v_sys, B, bt, fluid, b, pipe, grout, soil, g, sp, loads)
+    if c.get("extra_day"):            # a leap year of loads: 29 February repeats 28 February with other magnitudes
+        day = [x * 1.7 + 300.0 for x in loads[1392:1416]]
+        loads = loads[:1416] + day + loads[1416:]
+    for (h0, v) in c.get("spikes", []):
+        loads[h0] = v
+    kw = {"load_years": list(c["load_years"])} if c.get("load_years") else {}
+    ghe = GHE(v_sys, B, bt, fluid, b, pipe, grout, soil, g, sp, loads, **kw)
     ghe._verif_loads = [float(x) for x in loads]        # the hourly series as handed to the constructor (W, extraction positive)
     return ghe
 
@@ -205,6 +211,20 @@ def run_flow(c):
     return {"ok": True, "res": out}
 
 
+def run_hybrid(c):
+    """the hybrid loads carried by a real GHE object (not a bare HybridLoad), read after the operations a design run performs on it"""
+    from ghedesigner.enums import TimestepType
+    ghe = build(c)
+    for op in c.get("ops", []):
+        if op == "simulate":
+            ghe.simulate(method=TimestepType.HYBRID)
+        elif op == "size":
+            ghe.compute_g_functions() if hasattr(ghe, "compute_g_functions") else None
+            ghe.size(method=TimestepType.HYBRID)
+    return {"ok": True, "load": [float(x) for x in ghe.hybrid_load.load], "hour": [float(x) for x in ghe.hybrid_load.hour],
+            "hourly": ghe._verif_loads, "times_end": float(ghe.times[-1]) if len(getattr(ghe, "times", [])) else None}
+
+
 def run_pair(c):
     """the same field simulated with flow given per borehole (v) and for the system (N v)"""
     from ghedesigner.enums import TimestepType
@@ -229,6 +249,8 @@ if __name__ == "__main__":
                 out.append(run_ops(c))
             elif p["mode"] == "flow":
                 out.append(run_flow(c))
+            elif p["mode"] == "hybrid":
+                out.append(run_hybrid(c))
             elif p["mode"] == "pair":
                 out.append(run_pair(c))
         except Exception as ex:
